@@ -21,7 +21,7 @@ Explained(e) ==
   ELSE IF e.a = "Deposit" THEN M' = M /\ epoch' = epoch
   ELSE FALSE
 
-Chk(prop, name, holds, e) == holds \/ PrintT(<<"VIOL", prop, name, l, "-", e.a>>)
+Chk(prop, name, holds, e) == IF holds THEN TRUE ELSE PrintT(<<"VIOL", prop, name, l, "-", e.a>>)
 
 TStep ==
   /\ l <= Len(Rec)
